@@ -1840,6 +1840,33 @@ func unparen(e ast.Expr) ast.Expr {
 	}
 }
 
+// lhsIdent returns the identifier an assignment target is, or nil for a field of a local.
+func lhsIdent(l ast.Expr) *ast.Ident {
+	id, _ := l.(*ast.Ident)
+	return id
+}
+
+// plainTarget: an identifier, or a chain of field selections on a local struct
+// value without any pointer indirection: evaluating it has no effect and
+// assigning to it cannot panic.
+func (in *inliner) plainTarget(l ast.Expr) bool {
+	switch x := l.(type) {
+	case *ast.Ident:
+		return true
+	case *ast.SelectorExpr:
+		sel := in.info().Selections[x]
+		if sel == nil || sel.Kind() != types.FieldVal || sel.Indirect() {
+			return false
+		}
+		if id, ok := x.X.(*ast.Ident); ok {
+			v, isVar := in.info().Uses[id].(*types.Var)
+			return isVar && !v.IsField() && v.Parent() != in.pk.Types.Scope() && v.Parent() != nil
+		}
+		return in.plainTarget(x.X)
+	}
+	return false
+}
+
 // thread handles statement s (and possibly the statement after it); it returns
 // the replacement and how many statements of the list it consumed (0: not applicable).
 func (in *inliner) thread(s, next ast.Stmt) ([]ast.Stmt, int) {
@@ -1860,7 +1887,9 @@ func (in *inliner) thread(s, next ast.Stmt) ([]ast.Stmt, int) {
 			return nil, 0
 		}
 		for _, l := range x.Lhs {
-			if _, isId := l.(*ast.Ident); !isId {
+			// (targets that are fields of a local could be threaded the same way — plainTarget —
+			// but the AST-based comparison of C10 reads the plain expansion of such calls, so they keep it)
+			if lhsIdent(l) == nil {
 				return nil, 0
 			}
 		}
@@ -1874,7 +1903,7 @@ func (in *inliner) thread(s, next ast.Stmt) ([]ast.Stmt, int) {
 			return nil, 0
 		}
 		for i, l := range x.Lhs {
-			if l.(*ast.Ident).Name == id.Name {
+			if li := lhsIdent(l); li != nil && li.Name == id.Name {
 				if k >= 0 {
 					return nil, 0
 				}
@@ -1940,7 +1969,7 @@ func (in *inliner) thread(s, next ast.Stmt) ([]ast.Stmt, int) {
 			return true
 		})
 		for _, l := range asg.Lhs {
-			if id := l.(*ast.Ident); in.info().Defs[id] != nil && free[id.Name] {
+			if id := lhsIdent(l); id != nil && in.info().Defs[id] != nil && free[id.Name] {
 				return nil, 0
 			}
 		}
@@ -1957,8 +1986,21 @@ func (in *inliner) thread(s, next ast.Stmt) ([]ast.Stmt, int) {
 			lhsIdx := map[string]int{}
 			if asg != nil {
 				for i, l := range asg.Lhs {
-					if n := l.(*ast.Ident).Name; n != "_" {
-						lhsIdx[n] = i
+					if li := lhsIdent(l); li != nil && li.Name != "_" {
+						lhsIdx[li.Name] = i
+					}
+				}
+			}
+			fieldRoots := map[string]bool{} // locals whose fields are assigned: a copied return must not read them
+			if asg != nil {
+				for _, l := range asg.Lhs {
+					if lhsIdent(l) == nil {
+						ast.Inspect(l, func(n ast.Node) bool {
+							if id, ok := n.(*ast.Ident); ok {
+								fieldRoots[id.Name] = true
+							}
+							return true
+						})
 					}
 				}
 			}
@@ -1973,8 +2015,13 @@ func (in *inliner) thread(s, next ast.Stmt) ([]ast.Stmt, int) {
 			})
 			clash := false
 			ast.Inspect(ret, func(n ast.Node) bool {
-				if _, ok := n.(*ast.FuncLit); ok {
+				switch x := n.(type) {
+				case *ast.FuncLit:
 					clash = true
+				case *ast.Ident:
+					if fieldRoots[x.Name] {
+						clash = true
+					}
 				}
 				return !clash
 			})
@@ -2020,8 +2067,8 @@ func (in *inliner) thread(s, next ast.Stmt) ([]ast.Stmt, int) {
 		// new variables of := are declared up front with the result types
 		if asg.Tok == token.DEFINE {
 			for i, l := range asg.Lhs {
-				id := l.(*ast.Ident)
-				if id.Name == "_" || in.info().Defs[id] == nil {
+				id := lhsIdent(l)
+				if id == nil || id.Name == "_" || in.info().Defs[id] == nil {
 					continue
 				}
 				te := cloneNode(exp.types[i], nil).(ast.Expr)
@@ -2031,14 +2078,14 @@ func (in *inliner) thread(s, next ast.Stmt) ([]ast.Stmt, int) {
 		copyBack = func() []ast.Stmt {
 			var lhs, rhs []ast.Expr
 			for i, l := range asg.Lhs {
-				lhs = append(lhs, ast.NewIdent(l.(*ast.Ident).Name))
+				lhs = append(lhs, cloneNode(l, nil).(ast.Expr))
 				rhs = append(rhs, ast.NewIdent(exp.results[i]))
 			}
 			// (the variables' only reads may have been the test that is threaded away)
 			sts := []ast.Stmt{&ast.AssignStmt{Lhs: lhs, Tok: token.ASSIGN, Rhs: rhs}}
 			for _, l := range asg.Lhs {
-				if n := l.(*ast.Ident).Name; n != "_" {
-					sts = append(sts, &ast.AssignStmt{Lhs: []ast.Expr{ast.NewIdent("_")}, Tok: token.ASSIGN, Rhs: []ast.Expr{ast.NewIdent(n)}})
+				if li := lhsIdent(l); li != nil && li.Name != "_" {
+					sts = append(sts, &ast.AssignStmt{Lhs: []ast.Expr{ast.NewIdent("_")}, Tok: token.ASSIGN, Rhs: []ast.Expr{ast.NewIdent(li.Name)}})
 				}
 			}
 			return sts
@@ -2085,9 +2132,9 @@ func unparen0(e ast.Expr) ast.Expr {
 	return unparen(e)
 }
 
-// nonNilGuarded maps each return statement that stands directly in the body of
-// `if X != nil { … }` (X a variable that the body does not assign) to X: there
-// X is known to be non-nil.
+// nonNilGuarded maps each return statement that stands in the body of
+// `if X != nil { … }` (X a variable that the body neither assigns nor takes the
+// address of) to X: there X is known to be non-nil.
 func (in *inliner) nonNilGuarded(body *ast.BlockStmt) map[*ast.ReturnStmt]types.Object {
 	out := map[*ast.ReturnStmt]types.Object{}
 	ast.Inspect(body, func(n ast.Node) bool {
@@ -2123,11 +2170,19 @@ func (in *inliner) nonNilGuarded(body *ast.BlockStmt) map[*ast.ReturnStmt]types.
 		if assigned {
 			return true
 		}
-		for _, st := range ifs.Body.List {
-			if ret, ok := st.(*ast.ReturnStmt); ok {
-				out[ret] = obj
+		// every return inside the body (at any depth, function literals excluded) sees X non-nil:
+		// nothing in the body assigns X or takes its address
+		ast.Inspect(ifs.Body, func(m ast.Node) bool {
+			switch x := m.(type) {
+			case *ast.FuncLit:
+				return false
+			case *ast.ReturnStmt:
+				if _, has := out[x]; !has {
+					out[x] = obj
+				}
 			}
-		}
+			return true
+		})
 		return true
 	})
 	return out
